@@ -34,6 +34,10 @@ def run(m):
                 return res
             open(p, "w").write(s.replace(e["old"], e["new"]))
         r = sh(f"cd {d} && go build ./... && go test -vet=off -count=1 ./... 2>&1 | grep -v 'no test files'")
+        for _ in range(3):
+            # the repository's TestTerminfoDelay measures wall-clock time and fails on a loaded machine
+            if "FAIL" in r.stdout and "TestTerminfoDelay" in r.stdout and r.stdout.count("--- FAIL") == 1:
+                r = sh(f"cd {d} && go test -vet=off -count=1 ./... 2>&1 | grep -v 'no test files'")
         tests_ok = "FAIL" not in r.stdout and r.returncode == 0
         res["repo_tests_pass"] = tests_ok
         if not tests_ok:
